@@ -602,15 +602,13 @@ impl SwiftField for Field50InstructingParty {
         // Option C is a BIC (8 or 11 characters)
         // Option L is a party identifier (up to 35 characters)
 
-        let trimmed = input.trim();
-
         // Try parsing as BIC first (more restrictive)
-        if let Ok(field) = Field50C::parse(trimmed) {
+        if let Ok(field) = Field50C::parse(input) {
             return Ok(Field50InstructingParty::C(field));
         }
 
         // Try parsing as party identifier
-        if let Ok(field) = Field50L::parse(trimmed) {
+        if let Ok(field) = Field50L::parse(input) {
             return Ok(Field50InstructingParty::L(field));
         }
 
